@@ -838,7 +838,8 @@ func rulesC08(r *Run) {
 	r.Kind("R1", "K3")
 	ruleRunningBeforePlugin(r, "R1")
 	ruleStatusChangeWritten(r, "R1", planMachine(r, "R1"))
-	r.Expect("R1", 4)
+	ruleMarksRunningAll(r, "R1")
+	r.Expect("R1", 7)
 
 	r.Kind("R2", "K3")
 	{
@@ -2477,4 +2478,84 @@ func ruleFixFailedGate(r *Run, rule, fnKey, owner string) {
 		}
 		r.Check(rule, ShortFn(fnKey)+":failed-"+group+"-fails-the-scope", bpos, bad == "", "%s", orOK(bad, "Running ∧ "+group+" Failed ⇒ scope Failed on every path"))
 	}
+}
+
+// ruleMarksRunning (mutation sweep, session 2): whoever starts a piece of work marks its object Running first. Start-up
+// recovery resumes exactly what the store shows as Running (C11-R1) and repairs only Running objects (C09-R3), so an object
+// that is being executed while still stored NotStarted is invisible to both: after a crash the plan is never resumed.
+// On every path of fn on which `acts` holds (the path goes on to execute), X.State.Status = Running is assigned for an
+// X of type owner before the act.
+func ruleMarksRunning(r *Run, rule, fnKey, owner string, acts func(fl *Flow, p *Path) int, what string) {
+	fn := r.fnByKey(rule, fnKey)
+	if fn == nil {
+		return
+	}
+	fl, paths, ok := r.flowPaths(rule, fn)
+	if !ok {
+		return
+	}
+	info := fl.Info
+	bad := ""
+	var bpos token.Pos = fn.Decl.Pos()
+	n := 0
+	for i := range paths {
+		p := &paths[i]
+		at := acts(fl, p)
+		if at < 0 {
+			continue
+		}
+		n++
+		marked := false
+		for j := 0; j < at && j < len(p.Ev); j++ {
+			if v, ok := StatusAssign(info, p.Ev[j], owner); ok {
+				marked = v == "workflow.Running"
+			}
+		}
+		// already Running (a recovered object): a test that established it counts
+		if !marked {
+			for j := 0; j < at && j < len(p.Ev); j++ {
+				if st, ok := statusTest(info, p.Ev[j], owner); ok && st == "workflow.Running" && p.Ev[j].Taken {
+					marked = true
+				}
+			}
+		}
+		if !marked && bad == "" {
+			bad = "a path of " + ShortFn(fnKey) + " " + what + " without having marked the " + strings.TrimPrefix(owner, "workflow.") + " Running (exit guard " + ExitGuardKey(fl, p) + "): it executes while the store still shows it as not started, which crash recovery neither resumes nor repairs"
+		}
+	}
+	if n == 0 {
+		r.Unresolved(rule, ShortFn(fnKey)+" path that "+what)
+		return
+	}
+	r.Check(rule, "marks-running-before-acting:"+ShortFn(fnKey), bpos, bad == "", "%s", orOK(bad, "Running is assigned before the work starts on every such path"))
+}
+
+func ruleMarksRunningAll(r *Run, rule string) {
+	nextIs := func(states ...string) func(fl *Flow, p *Path) int {
+		return func(fl *Flow, p *Path) int {
+			if p.Exit != ExitReturn {
+				return -1
+			}
+			nx := nextOf(fl, p)
+			for _, s := range states {
+				if nx == s {
+					return len(p.Ev)
+				}
+			}
+			return -1
+		}
+	}
+	firstCall := func(key string) func(fl *Flow, p *Path) int {
+		return func(fl *Flow, p *Path) int {
+			for j, e := range p.Ev {
+				if IsCall(e, key) && !e.Deferred {
+					return j
+				}
+			}
+			return -1
+		}
+	}
+	ruleMarksRunning(r, rule, smKey("Start"), "workflow.Plan", nextIs("PlanBypassChecks"), "goes on to execute the plan")
+	ruleMarksRunning(r, rule, smKey("ExecuteBlock"), "workflow.Block", nextIs("BlockBypassChecks"), "enters the block")
+	ruleMarksRunning(r, rule, smKey("execSeq"), "workflow.Sequence", firstCall(smKey("runAction")), "runs the actions of the sequence")
 }
